@@ -89,6 +89,55 @@ def work(tasks, idx):
     tie = corr.Tie(res, drv, "code_accept_implies_model_accept")
     cs = _auth.creds()
     for t in tasks:
+        if t[0] == "inplace":
+            # one credential object whose byte fields are writable buffers, verified, then changed *in place* bit by bit and
+            # presented again (the very same object, the very same buffers): what is verified is what the buffers hold now
+            _, kind, ci, wrap = t
+            mk = (lambda b: bytearray(b)) if wrap == "bytearray" else (lambda b: memoryview(bytearray(b)))
+            if kind == "auth":
+                a, e, _ = faults.build_assertion(cs[ci], flags=core.UP | core.UV)
+                bufs = {k: mk(a[k]) for k in ("client_data_json", "authenticator_data", "signature")}
+                obj = cases.auth_record(dict(a, **bufs))
+                run_obj = lambda: cases.run_auth(a, e, cred_obj=obj)
+            else:
+                b = _reg.build("packed", _reg.cred_choices("packed")[ci % 3], ())
+                if b is None:
+                    continue
+                req, r = b
+                e = _reg.expectation(req, r.roots)
+                a = r.credential
+                bufs = {k: mk(a[k]) for k in ("client_data_json", "attestation_object")}
+                obj = cases.reg_record(dict(a, **bufs))
+                run_obj = lambda: cases.run_reg(a, e, cred_obj=obj)
+            first = run_obj()
+            res.evaluations += 1
+            if first["k"] != "accept":
+                res.nonblocking.append({"why": f"base {kind} ceremony with {wrap} fields rejected", "code": first})
+                continue
+            for field, buf in bufs.items():
+                if field == "attestation_object":
+                    continue          # kept as it is: its bits are covered by the per-format streams
+                step = 1 if field != "signature" else 5
+                for i in range(0, len(buf) * 8, step):
+                    buf[i // 8] ^= 1 << (7 - i % 8)
+                    code = run_obj()
+                    buf[i // 8] ^= 1 << (7 - i % 8)
+                    res.evaluations += 1
+                    res.nontrivial.add(("inplace", kind, ci, wrap, field, i))
+                    res.count(f"inplace-{kind}:" + field)
+                    if code["k"] == "accept":
+                        cur = dict(a, **{field: bytes(buf[: i // 8]) + bytes([buf[i // 8] ^ (1 << (7 - i % 8))]) + bytes(buf[i // 8 + 1:])})
+                        res.violations.append({"why": f"{kind}: after bit {i} of {field} was flipped in place in a {wrap} the credential object verified earlier "
+                                                      f"is still accepted", "case": (cases.auth_case if kind == "auth" else cases.reg_case)(cur, e),
+                                               "history": "verify(obj) -> accept; flip the bit inside obj's own buffer; verify(obj)",
+                                               "match": {"op": "verify_" + kind, "flip": field, "rule": "in-place"}})
+                        break
+            again = run_obj()
+            res.evaluations += 1
+            if again["k"] != "accept":
+                res.violations.append({"why": f"{kind}: the restored credential object is rejected after the in-place sweep: {again}",
+                                       "match": {"op": "verify_" + kind, "rule": "in-place-restored"}})
+            continue
         if t[0] == "auth":
             _, ci, field, lo, hi = t[:5]
             trailer = t[5] if len(t) > 5 else b""
@@ -210,6 +259,12 @@ def run(ctx, res):
         for lead, trail in ((b"", b"\n"), (b" ", b""), (b"\t", b"\r\n"), (b"\x0b", b"\x0c")):
             for lo in range(0, 150 * 8, CHUNK):
                 tasks.append(("auth", ci, "client_data_json", lo, lo + CHUNK, ("cdj-ws", lead, trail)))
+    for ci in ([0, 5] if ctx.quick() else auth_creds):
+        for wrap in ("bytearray", "memoryview"):
+            tasks.append(("inplace", "auth", ci, wrap))
+    for ci in ([0] if ctx.quick() else [0, 1, 2]):
+        for wrap in ("bytearray", "memoryview"):
+            tasks.append(("inplace", "reg", ci, wrap))
     fmts = ["packed", "fido-u2f", "tpm"] if ctx.quick() else list(SIGNED_FIELDS)
     for fmt in fmts:
         choices = _reg.cred_choices(fmt)
